@@ -1,7 +1,11 @@
 /-
 Model of the NSEC denial-of-existence validator of hickory-net
 (crates/net/src/dnssec/mod.rs : `verify_nsec`, `no_closer_matches`,
-`find_nsec_covering_record`), statement by statement, as the code is.
+`find_nsec_covering_record`, `is_strict_descendant`, `is_ancestor_delegation`,
+`closer_encloser_exists`), statement by statement, as the code is — i.e. with the six repairs
+of /repo commits aa6d1e8, 3224d1f, f7f02bc, a5c3ba8 and the two that follow them (empty
+non-terminals, RFC 6840 §4.1 ancestor-delegation records, negative response without SOA, the
+wildcard label in the encloser search, closer encloser of a wildcard answer, NSEC/RRSIG bits).
 
 * a name is `Name` of `Model/Name.lean`; `>`/`<`/`==` on names are `Name.cmp` / `Name.eq`
   (`impl Ord`, `impl PartialEq`), `zone_of`, `num_labels`, `is_wildcard`, `prepend_label`
@@ -82,15 +86,22 @@ def isSoa (soa : Option Name) (n : Name) : Bool :=
   | some s => Name.eq n s
   | none => false
 
+/-- `is_ancestor_delegation` (RFC 6840 §4.1): NS bit set, SOA bit clear. -/
+def isDelegation (types : List Nat) : Bool := types.contains TYPE_NS && !types.contains TYPE_SOA
+
+/-- `is_strict_descendant(name, ancestor)` : `ancestor.zone_of(name) && name != ancestor` -/
+def isStrictDescendant (name ancestor : Name) : Bool := ancestor.zoneOf name && !Name.eq name ancestor
+
 /-- the closure of `find_nsec_covering_record` -/
 def covers (soa : Option Name) (t : Name) (r : Nsec) : Bool :=
   gt t r.owner && (lt t r.next || isSoa soa r.next)
+    && !(isDelegation r.types && r.owner.zoneOf t)
 
 /-- `find_nsec_covering_record` -/
 def findCovering (soa : Option Name) (t : Name) (nsecs : List Nsec) : Option Nsec :=
   nsecs.find? (covers soa t)
 
-/-- The `while candidate_name.num_labels() > next_closest_encloser.num_labels()` loop of
+/-- The `while candidate_name.iter().count() > next_closest_encloser.iter().count()` loop of
 `verify_nsec` for one seed name, on the seed's label list: `some c` when the loop `break`s
 with `next_closest_encloser = c`, `none` when it runs out.  The first candidate is the seed
 itself (own fqdn flag); every later one is a `base_name()`, hence fqdn. -/
@@ -98,13 +109,22 @@ def searchEncloser (q : Name) (k : Nat) : List Bytes → Bool → Option Name
   | [], _ => none
   | l :: ls, f =>
     let cand : Name := { labels := l :: ls, fqdn := f }
-    if cand.numLabels > k then
+    if cand.labels.length > k then
       if cand.zoneOf q then some cand else searchEncloser q k ls true
     else none
 
 /-- one iteration of `for seed_name in [covering_nsec_name, next_domain_name]` -/
 def encloserStep (q : Name) (nce seed : Name) : Name :=
-  (searchEncloser q nce.numLabels seed.labels seed.fqdn).getD nce
+  (searchEncloser q nce.labels.length seed.labels seed.fqdn).getD nce
+
+/-- the `while` loop of `closer_encloser_exists` for one seed name, on its label list -/
+def closerLoop (q : Name) (k : Nat) : List Bytes → Bool → Bool
+  | [], _ => false
+  | l :: ls, f =>
+    let cand : Name := { labels := l :: ls, fqdn := f }
+    if cand.labels.length > k then
+      if cand.zoneOf q then true else closerLoop q k ls true
+    else false
 
 /-- The loop of `no_closer_matches` on the label list of the running `name`. -/
 def ncmLoop (soa : Option Name) (nsecs : List Nsec) (k : Nat) : List Bytes → Bool → Bool
@@ -134,6 +154,14 @@ def noCloserMatches (q : Name) (soa : Option Name) (nsecs : List Nsec)
     else
       let name := baseNameT q
       ncmLoop soa nsecs wbn.numLabels name.labels name.fqdn
+
+/-- `closer_encloser_exists` -/
+def closerEncloserExists (q owner next : Name) (wildcardBaseName : Option Name) : Bool :=
+  match wildcardBaseName with
+  | none => false
+  | some wbn =>
+    let k := (baseNameT wbn).labels.length
+    closerLoop q k owner.labels owner.fqdn || closerLoop q k next.labels next.fqdn
 
 /-- `Iterator::min_by_key` : the *first* element with the least key. -/
 def minByKey {α} (key : α → Nat) : List α → Option α
@@ -173,142 +201,58 @@ def hasType (r : Nsec) (t : Nat) : Bool := r.types.contains t
 def verifyCovered (q : Name) (qtype : Nat) (soa : Option Name) (rcode : Nat)
     (answers : List Ans) (nsecs : List Nsec) (nce0 : Name) (cov : Nsec) : Proof :=
   let haveAnswer := !answers.isEmpty
+  let queryNameIsEnt := isStrictDescendant cov.next q
   let nce1 := encloserStep q nce0 cov.owner
   let nce := encloserStep q nce1 cov.next
   match prependStar nce with
   | none => .bogus
   | some wildcardName =>
     let wbn := wildcardBaseName q haveAnswer answers nsecs
+    let answerArm : Bool :=
+      rcode == RCODE_NOERROR && haveAnswer && !queryNameIsEnt
+        && !closerEncloserExists q cov.owner cov.next wbn
+        && noCloserMatches q soa nsecs wbn && (findCovering soa q nsecs).isSome
     match findCovering soa wildcardName nsecs with
-    | some _ =>
-      if rcode == RCODE_NXDOMAIN && !haveAnswer then .secure
-      else if rcode == RCODE_NOERROR && haveAnswer && noCloserMatches q soa nsecs wbn
-          && (findCovering soa q nsecs).isSome then .secure
+    | some wcov =>
+      if rcode == RCODE_NXDOMAIN && !haveAnswer && !queryNameIsEnt
+          && !isStrictDescendant wcov.next wildcardName then .secure
+      else if answerArm then .secure
       else .bogus
     | none =>
       if !haveAnswer && rcode == RCODE_NOERROR
-          && nsecs.any (fun r => Name.eq r.owner wildcardName && !hasType r qtype
+          && nsecs.any (fun r => Name.eq r.owner wildcardName
+              && !(qtype == TYPE_NSEC || qtype == TYPE_RRSIG)
+              && (!isDelegation r.types || qtype == TYPE_DS)
+              && !hasType r qtype
               && !hasType r TYPE_CNAME && noCloserMatches q soa nsecs wbn) then .secure
       else .bogus
+
+/-- the starting value of `next_closest_encloser` (`none`: "SOA record is for the wrong zone") -/
+def startOf (q : Name) (soa : Option Name) (haveAnswer : Bool) : Option Name :=
+  match soa with
+  | some s => if !s.zoneOf q then none else some s
+  | none => if haveAnswer then some (baseNameT q) else some Name.root
 
 /-- `verify_nsec(query, soa_name, response_code, answers, nsecs)` -/
 def verifyNsec (q : Name) (qtype : Nat) (soa : Option Name) (rcode : Nat)
     (answers : List Ans) (nsecs : List Nsec) : Proof :=
   if rcode != RCODE_NXDOMAIN && rcode != RCODE_NOERROR then .bogus
   else
-    let start : Option Name := match soa with
-      | some s => if !s.zoneOf q then none else some s
-      | none => some (baseNameT q)
-    match start with
+    let haveAnswer := !answers.isEmpty
+    match startOf q soa haveAnswer with
     | none => .bogus
     | some nce0 =>
-      let haveAnswer := !answers.isEmpty
       match nsecs.find? (fun r => Name.eq q r.owner) with
       | some r =>
-        if hasType r qtype || hasType r TYPE_CNAME then .bogus
+        if qtype == TYPE_NSEC || qtype == TYPE_RRSIG || hasType r qtype || hasType r TYPE_CNAME then
+          .bogus
+        else if isDelegation r.types && qtype != TYPE_DS then .bogus
         else if rcode == RCODE_NOERROR && !haveAnswer then .secure
         else .bogus
       | none =>
         match findCovering soa q nsecs with
         | none => .bogus
         | some cov => verifyCovered q qtype soa rcode answers nsecs nce0 cov
-
-end Nsec
-end HickoryVerif
-
-/-! ### Finding classes
-
-`classify` names the known deviation (if any) of `verify_nsec` that an input exercises.  It
-is computed from the input alone, mirrors `classify` of `harness/src/props/c08.rs` (the two
-are compared on every run through the `cls` lines of the correspondence stream), and its
-negation is the hypothesis of `C08.soundness_partial`. -/
-
-namespace HickoryVerif
-namespace Nsec
-
-/-- RFC 4034 §6.1 sort key (same as `Spec.canonKey`; repeated here to keep the model
-independent of `Spec/`). -/
-def nkey (n : Name) : List Bytes := n.labels.reverse.map Name.lowerLabel
-
-/-- `a` is a strict ancestor of `k` (on keys) -/
-def strictlyBelow (a k : List Bytes) : Bool := a.isPrefixOf k && a.length < k.length
-
-/-- length of the longest common prefix of two keys -/
-def lcpLen : List Bytes → List Bytes → Nat
-  | a :: as, b :: bs => if a = b then lcpLen as bs + 1 else 0
-  | _, _ => 0
-
-/-- RFC 6840 §4.1 "ancestor delegation" NSEC: NS bit set, SOA bit clear. -/
-def isDelegation (types : List Nat) : Bool := types.contains TYPE_NS && !types.contains TYPE_SOA
-
-/-- the closest encloser `verify_nsec` computes on its covering path -/
-def codeEncloser (q : Name) (soa : Option Name) (cov : Nsec) : Name :=
-  let nce0 := match soa with
-    | some s => s
-    | none => baseNameT q
-  encloserStep q (encloserStep q nce0 cov.owner) cov.next
-
-def classifyCovered (q : Name) (qtype : Nat) (soa : Option Name) (rcode : Nat)
-    (answers : List Ans) (nsecs : List Nsec) (cov : Nsec) : Option String :=
-  let ko := nkey cov.owner
-  let kn := nkey cov.next
-  let kq := nkey q
-  if isDelegation cov.types && strictlyBelow ko kq then
-    some "ancestor-delegation-nsec-used-below-cut"
-  else if !answers.isEmpty then
-    if strictlyBelow kq kn then some "wildcard-answer-for-empty-non-terminal"
-    else match wildcardBaseName q true answers nsecs with
-      | some wbn =>
-        if max (lcpLen kq ko) (lcpLen kq kn) > wbn.numLabels then
-          some "wildcard-answer-closer-encloser-not-excluded"
-        else none
-      | none => none
-  else
-    let nce := codeEncloser q soa cov
-    let kc := nkey nce
-    if soa.isNone && kc == nkey (baseNameT q) && !kc.isPrefixOf ko && !kc.isPrefixOf kn then
-      some "no-soa-closest-encloser-assumed"
-    else match prependStar nce with
-      | none => none
-      | some w =>
-        let kw := nkey w
-        if rcode == RCODE_NXDOMAIN then
-          if strictlyBelow kq kn then some "nxdomain-for-empty-non-terminal"
-          else match findCovering soa w nsecs with
-            | none => none
-            | some wc =>
-              if isDelegation wc.types && strictlyBelow (nkey wc.owner) kw then
-                some "ancestor-delegation-nsec-used-below-cut"
-              else if strictlyBelow kw (nkey wc.next) then
-                some "nxdomain-with-empty-non-terminal-wildcard"
-              else none
-        else
-          match findCovering soa w nsecs with
-          | some _ => none
-          | none =>
-            if kw.isPrefixOf kq then some "closest-encloser-search-discounts-wildcard-label"
-            else if qtype != TYPE_DS
-                && nsecs.any (fun r => Name.eq r.owner w && isDelegation r.types) then
-              some "ancestor-delegation-nsec-nodata-for-non-ds-type"
-            else if qtype == TYPE_RRSIG || qtype == TYPE_NSEC then
-              some "nsec-rrsig-bits-not-ignored"
-            else none
-
-/-- The known-deviation class of an input (`none`: no known deviation applies). -/
-def classify (q : Name) (qtype : Nat) (soa : Option Name) (rcode : Nat)
-    (answers : List Ans) (nsecs : List Nsec) : Option String :=
-  if rcode != RCODE_NXDOMAIN && rcode != RCODE_NOERROR then none
-  else match nsecs.find? (fun r => Name.eq q r.owner) with
-    | some r =>
-      if isDelegation r.types && qtype != TYPE_DS then
-        some "ancestor-delegation-nsec-nodata-for-non-ds-type"
-      else if qtype == TYPE_RRSIG || qtype == TYPE_NSEC then
-        some "nsec-rrsig-bits-not-ignored"
-      else none
-    | none =>
-      match findCovering soa q nsecs with
-      | none => none
-      | some cov => classifyCovered q qtype soa rcode answers nsecs cov
 
 end Nsec
 end HickoryVerif
